@@ -33,6 +33,12 @@ def loose(a, b):
     if isinstance(a, dict) or isinstance(b, dict):
         return (isinstance(a, dict) and isinstance(b, dict) and list(a.keys()) == list(b.keys())
                 and all(loose(a[k], b[k]) for k in a))
+    if isinstance(a, complex) or isinstance(b, complex):
+        # part by part (nan == nan)
+        if isinstance(a, (str, bytes)) or isinstance(b, (str, bytes)):
+            return False
+        ca, cb = complex(a), complex(b)
+        return loose(ca.real, cb.real) and loose(ca.imag, cb.imag)
     if isinstance(a, float) and a != a:
         return isinstance(b, float) and b != b
     if isinstance(b, float) and b != b:
@@ -1144,10 +1150,10 @@ def fam_astype(rng):
     import numpy as np
     T = gen_pure(rng, rng.randint(0, 2), regular=0.2, leaf=(["complex128", "complex64"] if rng.random() < 0.1 else None))
     vals = [L.gen_value(rng, T) for _ in range(L.toplen(rng, 0, 4))]
-    if "nan" in repr(vals) or "inf" in repr(vals):
-        return None
     lay = L.Enc(rng).encode(vals, T)
     to = rng.choice(LEAF_ALL + ["complex128", "complex64"])
+    if ("nan" in repr(vals) or "inf" in repr(vals)) and not (to == "bool" or to.startswith("float") or to.startswith("complex")):
+        return None          # (NaN and infinities have no defined integer value; to bool they are True, to float themselves)
     leaf = T
     while leaf[0] in ("list", "regular", "option"):
         leaf = leaf[1]
@@ -1304,13 +1310,26 @@ def fam_fillna(rng):
     is_none (bytemask) is True exactly at the None positions"""
     T = gen_pure(rng, rng.randint(0, 2), regular=0.15, optleaf=0.3, union=0.05)
     T = ("option", T[1] if T[0] == "option" else T)
+    OT = T
+    # the chosen level may lie below list levels (variable or fixed size, size 0 included): Content::fillna descends
+    # through them to the first option level of every path and changes nothing else
+    above = rng.choice([0, 0, 0, 1, 1, 2])
+    for _ in range(above):
+        T = ("regular", T, rng.randint(0, 3)) if rng.random() < 0.4 else ("list", T)
     vals = [L.gen_value(rng, T) for _ in range(L.toplen(rng, 0, 5))]
     lay = L.Enc(rng).encode(vals, T)
     if isinstance(lay, (L.IX, L.UM)):      # UM: KF-C09-fillna-unmasked-recurses
         return None
-    fill = L.gen_value(rng, T[1], none_p=0.0)
-    fl = L.Enc(rng, style="canonical").encode([fill], T[1])
-    ref = [fill if v is None else v for v in vals]
+    if above and "um " in (" " + lay.tokens() + " "):
+        return None
+    fill = L.gen_value(rng, OT[1], none_p=0.0)
+    fl = L.Enc(rng, style="canonical").encode([fill], OT[1])
+
+    def filled(v, d):
+        if d == 0:
+            return fill if v is None else v
+        return [filled(e, d - 1) for e in v]
+    ref = [filled(v, above) for v in vals]
     return Case("fillna %s %s" % (fl.tokens(), lay.tokens()), expect_value(ref, "fill_none(%r, %r)" % (vals, fill)), {"value": vals})
 
 
